@@ -55,7 +55,10 @@ def check_C03(run):
     g.r.shuffle(hists)
     scen = merge(scen, {ty: [F.history_scenario(g, "C03-hist-%05d-%s" % (i, ty), ty, hists[i % len(hists)]) for i in range(sizes(run, 150, 1200) // (1 if ty == "d" else 4))] for ty in ("d", "z", "s")})
     run.conform("lu", scen, ["C03."], tv_env={"MODE": "light"})        # storage clauses only: the numeric replay belongs to C02
-    return run.finish(rule="every successful factorization of the ?gssv / ?gstrf / tall / SymmetricMode / reuse-history families, in four types, is checked against SluStore!WellFormed clause by clause (raw SCformat / NCformat arrays with their allocated lengths)")
+    # incomplete factors: the same predicate, except that U may repeat a row index with an explicit zero
+    types_ilu = {"d": 1.0, "z": 0.4, "s": 0.2, "c": 0.2} if run.tier == "quick" else FULL_TYPES
+    run.conform("ilu", merge(F.fam_ilu(g, "C03", sizes(run, 500, 5000), types_ilu), F.fam_ilu_split(g, "C03", sizes(run, 100, 1000), types_ilu)), ["C03.", "C15.C03."], tv_env={"MODE": "light"})
+    return run.finish(rule="every successful factorization of the ?gssv / ?gstrf / tall / SymmetricMode / reuse-history families and every incomplete factorization of the ?gsisx families, in four types, is checked against SluStore!WellFormed clause by clause (raw SCformat / NCformat arrays with their allocated lengths)")
 
 
 def check_C04(run):
@@ -326,6 +329,8 @@ def check_C19(run):
     g2 = Gen(run.seed * 1000 + 191)
     fam2 = merge(F.fam_gssv(g2, "C19", sizes(run, 300, 3000), types), F.fam_gstrf(g2, "C19", sizes(run, 150, 1500), types),
                  F.fam_singular(g2, "C19", sizes(run, 100, 1000), types), F.fam_gssvx(g2, "C19", sizes(run, 200, 2000), types),
+                 # singular returns of the expert driver in every type and both storage orientations (their own exit path)
+                 F.fam_singular(g2, "C19", sizes(run, 160, 1600), {"d": 1.0, "z": 0.6, "s": 0.6, "c": 0.6}, fn="gssvx"),
                  F.fam_storage(g2, "C19", sizes(run, 40, 300), types), F.fam_storage(g2, "C19", sizes(run, 40, 300), types, fn="gsisx"))
     run.conform("fam_v0", fam2, pref, tv_env={"MODE": "light"})
     run.observers["asan_ubsan"] = {"scenarios": 0}
